@@ -970,9 +970,19 @@ class Interp:
                 self.fail(f'unsupported exception type in handler: {x!r}', h)
         return False
 
+    def lazy_items(self, it, node):
+        """items of a generator object, produced as they are asked for"""
+        while True:
+            if it.pos < len(it.items):
+                x = it.items[it.pos]
+                it.pos += 1
+                yield x
+            elif not it.pull(node):
+                return
+
     def st_For(self, st, frame):
         it = self.eval(st.iter, frame)
-        items = self.iterate(it, st)
+        items = self.lazy_items(it, st) if isinstance(it, LazyGen) else self.iterate(it, st)
         broke = False
         for x in items:
             self.assign(st.target, x, frame, st)
@@ -1412,7 +1422,8 @@ class Interp:
         sub = Frame(frame.module, frame.func, frame)
         sub.func = frame.func
         sub.is_comprehension = True
-        items = self.iterate(self.eval(g.iter, frame), g.iter)
+        src = self.eval(g.iter, frame)
+        items = self.lazy_items(src, g.iter) if isinstance(src, LazyGen) else self.iterate(src, g.iter)
         for x in items:
             self.assign(g.target, x, sub, g.iter)
             ok = True
@@ -1666,7 +1677,23 @@ class Interp:
         return cached
 
     def run_generator(self, fv, frame):
-        """generators are run eagerly; the yielded values are collected into a list"""
+        import os
+        if not os.environ.get('VERIF_EAGER_GEN'):
+            g = LazyGen(self, fv, frame)
+            frame.gen = g
+            frame.yielded = g.items
+            return g
+        return self.run_generator_eagerly(fv, frame)
+
+    def close_generators(self):
+        gens = self.__dict__.get('live_generators', [])
+        for g in gens:
+            if not g.done:
+                g.close()
+        del gens[:]
+
+    def run_generator_eagerly(self, fv, frame):
+        """(VERIF_EAGER_GEN=1) the body is run to its end at the call; the yielded values are collected into a list"""
         frame.yielded = []
         pending = None
         retval = None
@@ -1690,7 +1717,19 @@ class Interp:
             if f is None:
                 self.fail('yield outside generator', node)
         f.yielded.append(v)
+        self.suspend_generator(f)
         return None
+
+    def suspend_generator(self, f):
+        g = getattr(f, 'gen', None)
+        if g is None:
+            return                      # eager mode
+        live = self.live
+        g._yielded.release()            # the consumer goes on ...
+        g._resume.acquire()             # ... until it asks for the next item
+        self.live = live
+        if g._closing:
+            raise _GenClose()
 
     def ex_YieldFrom(self, node, frame):
         v = self.eval(node.value, frame)
@@ -1699,7 +1738,22 @@ class Interp:
             f = f.closure
             if f is None:
                 self.fail('yield outside generator', node)
-        f.yielded.extend(self.iterate(v, node))
+        if isinstance(v, LazyGen) and getattr(f, 'gen', None) is not None:
+            # delegate item by item: each inner item is handed on before the next one is produced
+            while True:
+                if v.pos < len(v.items):
+                    x = v.items[v.pos]
+                    v.pos += 1
+                elif v.pull(node):
+                    continue
+                else:
+                    break
+                f.yielded.append(x)
+                self.suspend_generator(f)
+            return v.retval
+        for x in self.iterate(v, node):
+            f.yielded.append(x)
+            self.suspend_generator(f)
         return getattr(v, 'retval', None) if isinstance(v, GenResult) else None
 
     _LAZY = object()
@@ -1794,6 +1848,8 @@ class Interp:
             return list(v)
         if isinstance(v, (dict, set, frozenset, str, range)):
             return list(v)
+        if isinstance(v, LazyGen):
+            v.drain(node)
         if isinstance(v, GenResult):
             # what next() has taken is gone, and a full pass uses the generator up: a second pass finds nothing
             rest = list(v.items[getattr(v, 'pos', 0):])
@@ -1858,6 +1914,94 @@ class GenResult:
 
     def __repr__(self):
         return f'<generator result {len(self.items)} items>'
+
+
+class _GenClose(BaseException):
+    """unwinds the body of a generator the analyser closes (the consumer is gone)"""
+
+
+class LazyGen(GenResult):
+    """The result of calling a generator function.  The body runs in a thread of its own that is handed control only while the consumer waits for
+    the next item (strict alternation, like a coroutine): it starts at the first request, stops at each `yield`, and what the consumer does between two
+    requests (e.g. writing into an object the generator reads) is seen by the rest of the body - as in Python."""
+    def __init__(self, interp, fv, frame):
+        import threading
+        self.items, self.pos, self.pending, self.retval = [], 0, None, None
+        self.done = False
+        self._interp, self._fv, self._frame = interp, fv, frame
+        self._thread = None
+        self._resume, self._yielded = threading.Semaphore(0), threading.Semaphore(0)
+        self._closing = False
+        self._raised = None           # AbsRaise out of the body
+        self._error = None            # anything else out of the body (AnalysisError ...)
+        self._finished = False
+        self._label = f'{fv.module.mod.rel()}:{fv.qualname}'
+        interp.__dict__.setdefault('live_generators', []).append(self)
+
+    def _run(self):
+        it = self._interp
+        try:
+            it.exec_block(self._fv.node.body, self._frame)
+        except _Return as r:
+            self.retval = r.value
+        except _GenClose:
+            pass
+        except AbsRaise as e:
+            self._raised = e
+        except BaseException as e:        # AnalysisError and internal errors surface in the consumer
+            self._error = e
+        finally:
+            self._finished = True
+            self._yielded.release()
+
+    def pull(self, node=None):
+        """run the body up to its next yield; True if an item was appended to .items"""
+        if self.done:
+            return False
+        if self._closing:
+            raise AnalysisError('a generator the analyser had closed is asked for more items', node)
+        import threading
+        it = self._interp
+        n0 = len(self.items)
+        it.call_stack.append(self._label)
+        it.depth += 1
+        try:
+            if self._thread is None:
+                import sys
+                try:
+                    threading.stack_size(256 * 1024 * 1024)       # the interpreter recurses deeply; virtual memory only
+                except (ValueError, RuntimeError):
+                    pass
+                self._thread = threading.Thread(target=self._run, daemon=True)
+                self._thread.start()
+            else:
+                self._resume.release()
+            self._yielded.acquire()
+        finally:
+            it.depth -= 1
+            it.call_stack.pop()
+        if self._finished:
+            self.done = True
+            if self._error is not None:
+                e, self._error = self._error, None
+                raise e
+            if self._raised is not None:
+                e, self._raised = self._raised, None
+                raise e
+            return False
+        return len(self.items) > n0
+
+    def drain(self, node=None):
+        while self.pull(node):
+            pass
+
+    def close(self):
+        if self._thread is not None and not self._finished:
+            self._closing = True
+            self._resume.release()
+            self._thread.join(5)
+        self._closing = True
+        self.done = True
 
 
 _DEAD = object()
